@@ -3,3 +3,7 @@ import ExaModel.Props.C11
 #print axioms Exa.Props.C11.c11_resync
 #print axioms Exa.Props.C11.c11_silent_while_down
 #print axioms Exa.Props.C11.c11_withdrawn_while_down
+#print axioms Exa.Props.C11.c11_eor_needs_idle
+#print axioms Exa.Props.C11.c11_eor_per_family
+#print axioms Exa.Props.C11.c11_eor_once
+#print axioms Exa.Props.C11.c11_eor_after_table
